@@ -130,7 +130,7 @@ func C02(r *core.Run) {
 	// second observation point: the operand written by `regex update` is the generated text, byte for byte
 	type rtRes struct {
 		Text, Out, Got string
-		OK, Skipped   bool
+		OK, Skipped    bool
 	}
 	rt, deaths := core.Parallel(r, "roundtrip", pcIn{Spec: sweepSpec{Tokens: c02Tokens, One: 2, FullHdr: 1, Flags: true}}, r.Workers, func(in pcIn, shard, n int, emit func(rtRes)) {
 		d := core.Scratch("c02rt")
